@@ -1,7 +1,7 @@
 (* Concrete inputs: non-vacuity of the C01/C02 theorems and the witness of the known finding
    C02-split-leftover (a battery group whose inverters cannot realise its minimum power). *)
 From Coq Require Import QArith Qabs Lqa Lia List Bool.
-From Verif Require Import gen.DistConst model.Dist proofs.DistFacts proofs.DistBounds proofs.DistTop.
+From Verif Require Import gen.DistConst model.Dist proofs.DistFacts proofs.DistBounds proofs.DistTop proofs.DistRemainder.
 Import ListNotations.
 Open Scope Q_scope.
 
@@ -23,10 +23,13 @@ Lemma ex_wf : wf_groups ex_gs.
 Proof. intros g [<-|[<-|[]]]; wf_group_tac. Qed.
 
 Lemma ex_admitted : admitted ex_gs 120 /\ admitted ex_gs (-120).
-Proof. split; (split; [reflexivity|]); [left|right]; qdec. Qed.
+Proof. split; (split; [reflexivity|]); [left|right]; split; qdec. Qed.
 
-Lemma ex_side_ok : side_ok idf ex_gs 120 /\ side_ok idf ex_gs (-120).
-Proof. split; apply lower_okb_ok; vm_compute; reflexivity. Qed.
+Lemma ex_slack_small : remainder_slack idf ex_gs 120 < 1 # 1000000 /\ remainder_slack idf ex_gs (-120) < 1 # 1000000.
+Proof. split; qdec. Qed.
+
+Lemma idf_nonneg : forall x, 0 <= x -> 0 <= idf x.
+Proof. intros x H. exact H. Qed.
 
 Lemma ex_runs :
   (exists r, distribute idf ex_gs 120 = Some r /\ sumsp (res_dist r) == 120 /\ res_rem r == 0) /\
@@ -44,36 +47,26 @@ Definition ex_full : group := mkGrp [mkBat 10 100 0 100 (-200) (-50) 50 200] [mk
 Lemma ex_full_wf : wf_groups [ex_full; ex_g1].
 Proof. intros g [<-|[<-|[]]]; wf_group_tac. Qed.
 Lemma ex_full_no_headroom : no_headroom false ex_full /\ admitted [ex_full; ex_g1] 100.
-Proof. split; [qdec|]. split; [reflexivity|left; qdec]. Qed.
+Proof. split; [qdec|]. split; [reflexivity|left; split; qdec]. Qed.
 
 (* the exponent BatteryManager configures (translated from /repo) is positive, so pow(0, exponent) = 0 *)
 Lemma manager_exponent_positive : 0 < dist_manager_exponent /\ dist_manager_exponent == 1 /\ idf 0 == 0.
 Proof. repeat split; qdec. Qed.
 
-(* ---------------------------------------------------------------- known finding C02-split-leftover *)
-(* battery: exclusion 10, inclusion 15; inverters: [0, 5] and [25, 75]: no total in [10, 15] is realisable *)
+(* ---------------------------------------------------------------- former finding C02-split-leftover (fixed by 5d1dfb7) *)
+(* battery: exclusion 10, inclusion 15; inverters: [0, 5] and [25, 75]: no total in [10, 15] is realisable.
+   Before the fix the set was commanded 5 W (inside the battery exclusion zone); now it is not used. *)
 Definition sl_g : group := mkGrp [mkBat 10 70 10 80 (-15) (-10) 10 15] [mkInv 2 (-5) 0 0 5; mkInv 3 (-75) (-25) 25 75].
 
 Lemma sl_wf : wf_groups [sl_g].
 Proof. intros g [<-|[]]; wf_group_tac. Qed.
 
-Definition sl_r : result := match distribute idf [sl_g] 25 with Some r => r | None => mkR [] 0 [] end.
-Definition sl_gr : gres := hd (mkGR (prepare false idf sl_g) [] 0) (res_groups sl_r).
-
-Lemma split_leftover_witness :
-  exists gs p r gr g,
-    wf_groups gs /\ admitted gs p /\ side_ok idf gs p /\ distribute idf gs p = Some r /\
-    In gr (res_groups r) /\ In g gs /\ gr_src gr = prepare (supply_of p) idf g /\
-    ~ group_full g gr /\ ~ gr_left gr == 0.
+Lemma sl_fixed :
+  admitted [sl_g] 25 /\
+  exists r, distribute idf [sl_g] 25 = Some r /\ (forall a, In a (res_dist r) -> snd a == 0) /\ res_rem r == 25.
 Proof.
-  exists [sl_g], 25, sl_r, sl_gr, sl_g.
-  split; [exact sl_wf|]. split; [split; [reflexivity|left; qdec]|].
-  split; [apply lower_okb_ok; vm_compute; reflexivity|]. split; [vm_compute; reflexivity|].
-  split; [vm_compute; left; reflexivity|].
-  split; [left; reflexivity|]. split; [vm_compute; reflexivity|].
-  split.
-  - unfold group_full. intros [_ [H|H]].
-    + vm_compute in H. discriminate.
-    + apply H. split; qdec.
-  - qdec.
+  split; [split; [reflexivity|left; split; qdec]|].
+  destruct (distribute idf [sl_g] 25) as [r|] eqn:D; [|vm_compute in D; discriminate].
+  exists r. split; auto. vm_compute in D. inversion D; subst. split; [|qdec].
+  intros a Ha. cbn in Ha. destruct Ha as [<-|[<-|[]]]; reflexivity.
 Qed.
